@@ -99,7 +99,7 @@ def digit_value(c):
 # ---------------------------------------------------------------------------------------------
 
 class Atom(object):
-    __slots__ = ("c", "n", "m", "int_of", "alpha", "name", "_shift", "_memo", "origin", "view", "canon")
+    __slots__ = ("c", "n", "m", "int_of", "alpha", "name", "_shift", "_memo", "origin", "view", "canon", "int_neg")
 
     def __init__(self, c, n, int_of=None, alpha=None, name=None):
         self.c = list(c)
@@ -113,6 +113,7 @@ class Atom(object):
         self.origin = None        # flat atoms: [(segment, offset term)] of the rope they flatten
         self.view = None          # slices: (base atom with origin, start term, end term)
         self.canon = None         # slices: provably equal sub-rope of the base's rope (False: none found)
+        self.int_neg = None       # digits of -t: the original (negative) term t
 
     @staticmethod
     def lit(s):
@@ -542,5 +543,7 @@ def rendered_int_of(s):
     if len(segs) == 1 and isinstance(segs[0], Atom) and segs[0].int_of is not None:
         return segs[0].int_of
     if len(segs) == 2 and segs[0] == "-" and isinstance(segs[1], Atom) and segs[1].int_of is not None:
+        if segs[1].int_neg is not None:
+            return segs[1].int_neg
         return -segs[1].int_of
     return None
